@@ -62,10 +62,10 @@ PROPERTIES = {
         assumptions=[],
     ),
     'C06': dict(
-        units=['wire', 'kani_wire', 'timeout', 'kani_timeout', 'enum_cm'],
-        canaries=['wire', 'streams'],
+        units=['wire', 'kani_wire', 'timeout', 'kani_timeout', 'enum_cm', 'active_peers'],
+        canaries=['wire', 'streams', 'active_peers'],
         counterexample=cex.cex_c06,
-        extra=[validate.decode_sweep, validate.hostile_streams],
+        extra=[validate.decode_sweep, validate.hostile_streams, validate.hostile_requests],
         scope='NARROW: every function anemo itself runs on attacker-controlled bytes before the user service is called returns an error instead '
               'of panicking, for every byte string: read_version_frame (Kani, all inputs), read_request / read_response, from_raw, Version::new, '
               'StatusCode::new, try_parse_timeout, both Timeout::call, and BiStreamRequestHandler::handle swallows the error so only that stream ends. '
